@@ -105,6 +105,10 @@ class ProtoImporter:
         module = Module()
         # Get or create its namespace, and set its name
         path = pmod.name.split(".")  # Path-parts are dot-separated
+        while len(path) > 1 and path[-1] == "":
+            # The last part is the Module's own name, which is never empty: a name ending in "." keeps its dot(s).
+            path.pop()
+            path[-1] += "."
         ns = self.get_namespace(path[:-1])
         # Save the import-path and name
         module._importpath = path[:-1]
